@@ -1,4 +1,5 @@
-import Goyang.Lemmas.Positions
+import Goyang.Lemmas.PositionsSem
+import Goyang.Lemmas.PositionsAst
 /-
 C16 — reported source positions are the true positions (DESIGN.md 7.16), semantic part:
 "Every file:line:column that appears in an error from building or resolving a module is the start
@@ -12,9 +13,24 @@ positions are the `file`/`line`/`col` fields of the statements handed to the res
 Specification: Goyang/Spec/Positions.lean.
 -/
 namespace Goyang.Props.C16Sem
-open Goyang.Model Goyang.Spec.Positions Goyang.Lemmas.Positions
+open Goyang.Model Goyang.Spec.Positions Goyang.Lemmas.PositionsSem
 
-/-! ## Resolver -/
+/-! ## Resolver: every position is a statement start -/
+
+/-- The assumption on the plugged layers, spelled out: every positioned error they return, when
+asked about `type` statements of loaded modules, is the start of a statement of a loaded module. -/
+theorem plugPositionsOK_iff (reg : Registry) (plug : Plug) : PlugPositionsOK reg plug ↔
+    ((∀ root scope t, root ∈ reg.mods → Within t root.stmt → t.kw = "type" → (∀ s ∈ scope, Within s root.stmt) →
+        ∀ e ∈ (plug.tres.resolve reg root scope t).2, Positioned e → StmtPositions reg e.file e.line e.col) ∧
+      (∀ e ∈ plug.identityErrs reg, Positioned e → StmtPositions reg e.file e.line e.col) ∧
+      (∀ e ∈ plug.typedefErrs reg, Positioned e → StmtPositions reg e.file e.line e.col)) := by
+  constructor
+  · intro h
+    exact ⟨fun root scope t h1 h2 h3 h4 e he => posOK_of_posAt (h.resolve root scope t h1 h2 h3 h4 e he),
+      fun e he => posOK_of_posAt (h.identity e he), fun e he => posOK_of_posAt (h.typedefs e he)⟩
+  · rintro ⟨h1, h2, h3⟩
+    exact ⟨fun root scope t a b c d e he => posAt_true_of_posOK (h1 root scope t a b c d e he),
+      fun e he => posAt_true_of_posOK (h2 e he), fun e he => posAt_true_of_posOK (h3 e he)⟩
 
 /-- Every position that appears in an error returned by `Modules.Process` is the start of a
 statement of a loaded module or submodule — provided the plugged layers (type, identity and
@@ -24,7 +40,7 @@ one), or as `Err.bare cls`. -/
 theorem semantic_positions_are_statement_starts (reg : Registry) (opts : Opts) (plug : Plug)
     (hplug : PlugPositionsOK reg plug) :
     ∀ e ∈ (processAll reg opts plug).errors, Positioned e → StmtPositions reg e.file e.line e.col :=
-  fun e he => processAll_errors_ok hplug opts e he
+  fun e he => posOK_of_posAt (processAll_errors_ok sites_true hplug opts e he)
 
 /-- The same in executable form: every returned error passes the Boolean check against the list
 of all statement starts of the loaded set. -/
@@ -33,10 +49,99 @@ theorem semantic_positions_check (reg : Registry) (opts : Opts) (plug : Plug)
     (processAll reg opts plug).errors.all (posOKb reg) = true := by
   rw [List.all_eq_true]
   intro e he
-  exact (posOKb_iff reg e).2 (processAll_errors_ok hplug opts e he)
+  exact (posOKb_iff reg e).2 (semantic_positions_are_statement_starts reg opts plug hplug e he)
 
 /-- `allPositions` is the set the specification speaks about. -/
 theorem allPositions_spec (reg : Registry) (f : String) (l c : Nat) :
     (f, l, c) ∈ allPositions reg ↔ StmtPositions reg f l c := mem_allPositions_iff reg f l c
+
+/-! ## Resolver: the position is that of the statement the error names -/
+
+/-- The finer claim: a positioned error returned by `Modules.Process` stands at the start of a
+statement of a loaded module that its class names (`Names`): the `uses` statement of an unknown
+grouping, the `ordered-by` / `max-elements` / `min-elements` statement with the bad value, the
+statement holding a bad `config` / `mandatory`, and — as far as the plugged type layer keeps the
+discipline — the `type`, `range` or `length` statement. -/
+theorem semantic_positions_name_the_statement (reg : Registry) (opts : Opts) (plug : Plug)
+    (hplug : PlugPositionsAt Names reg plug) :
+    ∀ e ∈ (processAll reg opts plug).errors, Positioned e → ∃ s, StmtOf reg s ∧ At e s ∧ Names e.cls s :=
+  fun e he => processAll_errors_ok sites_names hplug opts e he
+
+/-- Unknown grouping ⇒ the `uses` statement. -/
+theorem unknown_grouping_position (reg : Registry) (opts : Opts) (plug : Plug)
+    (hplug : PlugPositionsAt Names reg plug) (e : Err) (he : e ∈ (processAll reg opts plug).errors)
+    (hp : Positioned e) (hc : e.cls = "unknown-group") : ∃ s, StmtOf reg s ∧ At e s ∧ s.kw = "uses" := by
+  obtain ⟨s, h1, h2, h3⟩ := semantic_positions_name_the_statement reg opts plug hplug e he hp
+  exact ⟨s, h1, h2, h3.1 hc⟩
+
+/-- Bad `ordered-by`, `max-elements`, `min-elements` ⇒ that substatement. -/
+theorem list_attribute_position (reg : Registry) (opts : Opts) (plug : Plug)
+    (hplug : PlugPositionsAt Names reg plug) (e : Err) (he : e ∈ (processAll reg opts plug).errors)
+    (hp : Positioned e) :
+    (e.cls = "bad-ordered-by" → ∃ s, StmtOf reg s ∧ At e s ∧ s.kw = "ordered-by") ∧
+    (e.cls = "bad-max-elements" → ∃ s, StmtOf reg s ∧ At e s ∧ s.kw = "max-elements") ∧
+    (e.cls = "bad-min-elements" → ∃ s, StmtOf reg s ∧ At e s ∧ s.kw = "min-elements") := by
+  obtain ⟨s, h1, h2, h3⟩ := semantic_positions_name_the_statement reg opts plug hplug e he hp
+  exact ⟨fun hc => ⟨s, h1, h2, h3.2.1 hc⟩, fun hc => ⟨s, h1, h2, h3.2.2.1 hc⟩, fun hc => ⟨s, h1, h2, h3.2.2.2.1 hc⟩⟩
+
+/-- Bad `config` / `mandatory` value ⇒ the statement that holds it (the node being converted). -/
+theorem tristate_position (reg : Registry) (opts : Opts) (plug : Plug)
+    (hplug : PlugPositionsAt Names reg plug) (e : Err) (he : e ∈ (processAll reg opts plug).errors)
+    (hp : Positioned e) (hc : e.cls = "bad-tristate") :
+    ∃ s, StmtOf reg s ∧ At e s ∧ ∃ v ∈ s.subs, (v.kw = "config" ∨ v.kw = "mandatory") ∧ v.arg ≠ "true" ∧ v.arg ≠ "false" := by
+  obtain ⟨s, h1, h2, h3⟩ := semantic_positions_name_the_statement reg opts plug hplug e he hp
+  exact ⟨s, h1, h2, h3.2.2.2.2.1 hc⟩
+
+/-- Unknown type name or prefix, bad range, bad length ⇒ the `type`, `range`, `length` statement
+(this is what the assumption on the plugged type layer says; the theorem carries it through the
+entry layer, the augment stage and the deviation stage). -/
+theorem type_error_position (reg : Registry) (opts : Opts) (plug : Plug)
+    (hplug : PlugPositionsAt Names reg plug) (e : Err) (he : e ∈ (processAll reg opts plug).errors)
+    (hp : Positioned e) :
+    ((e.cls = "unknown-type" ∨ e.cls = "unknown-prefix") → ∃ s, StmtOf reg s ∧ At e s ∧ s.kw = "type") ∧
+    (e.cls = "bad-range" → ∃ s, StmtOf reg s ∧ At e s ∧ s.kw = "range") ∧
+    ((e.cls = "bad-length" ∨ e.cls = "negative-length") → ∃ s, StmtOf reg s ∧ At e s ∧ s.kw = "length") := by
+  obtain ⟨s, h1, h2, _, _, _, _, _, k6, k7, k8, k9, k10⟩ := semantic_positions_name_the_statement reg opts plug hplug e he hp
+  refine ⟨?_, fun hc => ⟨s, h1, h2, k8 hc⟩, ?_⟩
+  · rintro (hc | hc)
+    · exact ⟨s, h1, h2, k6 hc⟩
+    · exact ⟨s, h1, h2, k7 hc⟩
+  · rintro (hc | hc)
+    · exact ⟨s, h1, h2, k9 hc⟩
+    · exact ⟨s, h1, h2, k10 hc⟩
+
+/-! ### the sites themselves (no assumption on the plugged layers) -/
+
+/-- A `uses` statement whose grouping is not found converts to an entry holding exactly one error:
+`unknown-group` at the `uses` statement. -/
+theorem uses_of_unknown_grouping (env : Env) (fuel : Nat) (root : Mod) (scope : List Stmt) (n : Stmt)
+    (visiting : List NodeId) (st : TState) (hkw : n.kw = "uses")
+    (hnone : (findGrouping env.reg env.linked (2 * fuel + 16) root scope n.arg []).1 = none) :
+    toEntry env (fuel + 1) root scope n visiting st = (errorEntry root n "unknown-group", st) ∧
+    (errorEntry root n "unknown-group").allErrors = [Err.at_ n "unknown-group"] := by
+  refine ⟨?_, by simp [errorEntry, Entry.allErrors, Entry.allErrorsL]⟩
+  rw [Lemmas.Tree.toEntry_succ]
+  unfold Lemmas.Tree.toEntryBody
+  simp [hkw, hnone]
+
+/-- Duplicate key ⇒ the parent: `Entry.add` records at most one error, positioned at the source
+statement of the entry being extended (for the entry `toEntry` builds from a statement `n` that
+is `n`: `Lemmas.Tree.e0_data`). -/
+theorem duplicate_key_at_parent (e : Entry) (k : String) (v : Entry) :
+    (e.add k v).d.errors = e.d.errors ∨ (e.add k v).d.errors = e.d.errors ++ [Err.at_ e.d.node "duplicate-key"] := by
+  unfold Entry.add
+  split
+  · right; cases e; rfl
+  · left; cases e; rfl
+
+/-- Bad tristate ⇒ the node. -/
+theorem tristate_error_at_node (n : Stmt) (v : Option Stmt) :
+    ∀ x ∈ (tristate n v).2, x = Err.at_ n "bad-tristate" := fun x hx => (tristate_errs n v x hx).1
+
+/-- `ordered-by`, `max-elements`, `min-elements` ⇒ that substatement. -/
+theorem list_attribute_errors_at_substatement (s : Stmt) : ∀ x ∈ (listAttrOf s).2,
+    (∃ o, s.one? "ordered-by" = some o ∧ x = Err.at_ o "bad-ordered-by") ∨
+    (∃ v, s.one? "max-elements" = some v ∧ x = Err.at_ v "bad-max-elements") ∨
+    (∃ v, s.one? "min-elements" = some v ∧ x = Err.at_ v "bad-min-elements") := listAttrOf_errs s
 
 end Goyang.Props.C16Sem
